@@ -91,11 +91,11 @@ def walk_tree(root):
             st = os.lstat(p)
             import stat as S
 
-            if S.ISLNK(st.st_mode):
+            if S.S_ISLNK(st.st_mode):
                 out[rel] = {"kind": "link", "target": os.readlink(p)}
-            elif S.ISDIR(st.st_mode):
+            elif S.S_ISDIR(st.st_mode):
                 out[rel] = {"kind": "dir", "mode": S.S_IMODE(st.st_mode), "mtime_ns": st.st_mtime_ns}
-            elif S.ISREG(st.st_mode):
+            elif S.S_ISREG(st.st_mode):
                 with open(p, "rb") as f:
                     data = f.read()
                 out[rel] = {"kind": "file", "mode": S.S_IMODE(st.st_mode), "mtime_ns": st.st_mtime_ns, "size": st.st_size, "crc": crc(data), "data": data}
